@@ -966,6 +966,7 @@ class ExternalTensor(TensorBase, _protocols.TensorProtocol):  # pylint: disable=
                         copied += copied_now
                 except OSError as error:
                     if error.errno not in {
+                        errno.EBADF,  # e.g. the destination is opened in append mode
                         errno.EINVAL,
                         errno.ENOSYS,
                         errno.EOPNOTSUPP,
